@@ -87,11 +87,11 @@ PROPS["C01"] = {
 PROPS["C02"] = {
     "title": "Reconciliation converges to one Ready live-template pod per eligible node",
     "level": "exploration",
-    "level_text": "Stateful property test: a generated history (template edits incl. several in a row, annotation flips, node churn, pod failures, duplicates, partial rollouts, controller restarts; strategy from the convergent sub-lattice with or without canary) is followed by a stabilisation phase that establishes the statement's premises (annotations removed, canary resolved by validation / failure / waiting, API calls succeed, kubelet makes pods Ready, fair rounds in generated orders); the oracle demands a quiet round within a bound, the fixpoint predicate (one Ready live-hash pod per eligible node, nothing else, active set = spec.template, no canary left) and three further quiet rounds.",
-    "level_note": SM_NOTE + " 'Every fair order' is sampled. The bound (60+8N rounds) is deliberately generous: a livelock fails any bound; requeue timers are not modelled, so a bug that only forgets to requeue is invisible.",
+    "level_text": "Stateful property test: a generated history (template edits incl. several in a row, annotation flips, node churn, pod failures, duplicates, partial rollouts, controller restarts; strategy from the convergent sub-lattice with or without canary) is followed by a stabilisation phase that establishes the statement's premises (annotations removed, canary resolved by validation / failure / waiting, API calls succeed, kubelet makes pods Ready, fair rounds in generated orders); the oracle demands a quiet round within a bound, the fixpoint predicate (one Ready live-hash pod per eligible node, nothing else, active set = spec.template, no canary left) and three further quiet rounds. A second job replaces the fair rounds by event-driven scheduling (watch events and requeue requests only, modelled after controllers/*_controller.go and the controller-runtime worker, virtual clock): after a generated history of template changes, node churn and pod losses the same fixpoint must be reached within 90s + 40 x reconcileFrequency of virtual time.",
+    "level_note": SM_NOTE + " 'Every fair order' is sampled. The bound (60+8N rounds) is deliberately generous: a livelock fails any bound; in the round-based job requeue timers are not modelled; the event-driven job (a hand-written model of the controller-runtime work queue, reconcile frequencies of one second or more) is where a forgotten requeue shows.",
     "technique": "stateful property-based testing (rapid): generated history + stabilisation + fixpoint/convergence oracle",
-    "quick": {"jobs": [rapid_job("sm", "^TestC02SM$", 500, shards=4)]},
-    "thorough": {"jobs": [rapid_job("sm", "^TestC02SM$", 2500, shards=16, timeout="50m")]},
+    "quick": {"jobs": [rapid_job("sm", "^TestC02SM$", 500, shards=4), rapid_job("queue", "^TestC02Queue$", 240, shards=3)]},
+    "thorough": {"jobs": [rapid_job("sm", "^TestC02SM$", 2500, shards=16, timeout="50m"), rapid_job("queue", "^TestC02Queue$", 3000, shards=8, timeout="50m")]},
 }
 
 PROPS["C04"] = {
